@@ -182,11 +182,11 @@ def cases(tier):
   for ak in ("auto", "auto_po2"):
     for shape in ((5,), (3, 4), (2, 2, 3, 4)):
       out.append(Case(PROP, T, "alpha-%s_rank%d" % (ak, len(shape)), scenario_for(ak, shape), bounds=bounds,
-                      replay_kind="c05", assumptions=ASSUME, timeout_ms=60000, lo=-40, hi=40))
+                      replay_kind="c05", assumptions=ASSUME, timeout_ms=20000, lo=-40, hi=40))
   out.append(Case(PROP, T, "alpha-auto_scale_axis0_rank2", scenario_for("auto", (3, 4), scale_axis=0), bounds=bounds,
-                  replay_kind="c05", assumptions=ASSUME, timeout_ms=60000))
+                  replay_kind="c05", assumptions=ASSUME, timeout_ms=20000))
   out.append(Case(PROP, T, "alpha-auto_po2_bounded_rank2", scenario_for("auto_po2", (3, 4), bounds_po2=True), bounds=bounds,
-                  replay_kind="c05", assumptions=ASSUME, timeout_ms=60000))
+                  replay_kind="c05", assumptions=ASSUME, timeout_ms=20000))
   out.append(Case(PROP, T, "frozen_post_training_scale_rank2", scenario_for("frozen", (3, 4)), bounds=bounds,
-                  replay_kind="c05", assumptions=ASSUME, timeout_ms=60000))
+                  replay_kind="c05", assumptions=ASSUME, timeout_ms=20000))
   return out
